@@ -30,7 +30,9 @@ def gen_cases(tier, seed):
 
 
 def open_codes():
-    return [repo.adb_device.AdbDevice._open.__code__, repo.hidden_helpers._AdbTransactionInfo.__init__.__code__]
+    # (the OPEN message is packed and sent inside _open's dynamic extent: a preemption there is a preemption "inside an open")
+    return [repo.adb_device.AdbDevice._open.__code__, repo.hidden_helpers._AdbTransactionInfo.__init__.__code__, repo.adb_message.AdbMessage.pack.__code__,
+            repo.adb_message.AdbMessage.__init__.__code__, repo.adb_device._AdbIOManager.send.__code__, repo.adb_device._AdbIOManager._send.__code__]
 
 
 def run_case(case):
@@ -84,13 +86,14 @@ def run_case(case):
             sess.dispose()
     # ---- concurrent opens under the scheduler
     nact = rng.choice([2, 2, 3])
+    same_cmd = rng.random() < 0.3        # every actor runs the same command: their OPEN messages differ in the id only
     steps = []
     k = 0
     for a in range(nact):
         mine = []
         for _ in range(rng.choice([1, 2, 3])):
             keep = rng.random() < 0.5
-            mine.append(c06.sh("o%d" % k, 2, op="streaming_shell" if keep else "shell", take=1 if keep else None))
+            mine.append(c06.sh("o%d" % k if not same_cmd else "same", 2, op="streaming_shell" if keep else "shell", take=1 if keep else None))
             k += 1
         steps.append(mine)
     dims = {"maxdata": 4096, "remote": rng.choice(gen.REMOTE_REGIMES), "id_start": case["start"], "frag": "whole", "empty_rate": 0.0, "noise": []}
